@@ -196,6 +196,12 @@ func (f *mverify) Exec(r *hx.Run, op []string) string {
 			return res
 		}
 		r.Hist("mprove.ok")
+		// the root an accepted path folds to is determined by the path: an accepted (path, root) pair whose root
+		// is not the independently recomputed fold is a proof accepted against the wrong root
+		if _, want, ok := refFoldPath(path); !ok || !bytes.Equal(want[:], root) {
+			r.Viol(fmt.Sprintf("C07:merkleprove-accepts-wrong-root:pathlen=%d", len(path)),
+				fmt.Sprintf("MerkleProve accepted path %x against root %x; the path folds to %x", path, root, want[:]))
+		}
 		for k, c := range [][]common.Uint256{f.ah, f.bh} {
 			ds := f.a
 			if k == 1 {
@@ -544,6 +550,11 @@ func (f *mverify) Gen(r *hx.Run) {
 			if res := emitP(path, root[:], "honest"); res != "ok "+hx.Hex(t.data[i]) {
 				r.Viol(fmt.Sprintf("C07:honest-path-rejected:i=%d:n=%d", i, n), "MerkleProve rejects an honestly generated accumulator leaf path: "+res)
 			}
+			// the same (already proved) path against other roots: flipped bit, zero, root of another tree
+			for _, o := range otherRoots(root[:], refMTH(append([]common.Uint256{refLeaf([]byte("other"))}, t.lh...))) {
+				emitP(path, o, "same-path-other-root")
+			}
+			emitP(path, root[:], "honest-again")
 			if err2 == nil {
 				if res := emitP(path2, root[:], "honest-paired"); res != "ok "+hx.Hex(t.data[i]) {
 					r.Viol(fmt.Sprintf("C07:honest-paired-path-rejected:i=%d:n=%d", i, n), "MerkleProve rejects an honestly generated paired-level leaf path: "+res)
